@@ -158,6 +158,9 @@ def main():
     tempfile.tempdir = scratch
     res = {'crash': None}
     try:
+        # the package is imported while the process is in the worker's scratch directory (where instance files
+        # called inst.txt, v0.txt, ... come and go): a path resolved against the import-time directory finds them
+        os.chdir(workdir)
         from rv import loader
         reach = start_reach(loader.REPO)
         loader.load()
